@@ -161,21 +161,29 @@ Print Assumptions C14_counts_consistent.
 
 (* ---- second pass: datasets with several data variables, containers and fields ---- *)
 
-(* A container is parsed once; every data variable that names it is recorded with it - the
-   container found for variable i does not depend on how many other variables named the same
-   (or another) container before it, nor on what comes after. *)
+(* A container is parsed once.  Every data variable that lies on the cell dimension of an acceptable
+   container it names is recorded with that container; every other one (off the cell dimension -
+   for a domain variable the dimensions named by its `dimensions` attribute count -, container
+   missing or not acceptable) is recorded with none.  This holds for every dataset and every
+   position i: it does not depend on the order of the variables, nor on how many other variables
+   named the same or another container before or after. *)
 Theorem C14_variable_sees_its_container :
   forall (conts : list gcont) (dvs : list dvar) i d,
-  nth_error dvs i = Some d -> good_dvar conts d ->
-  lookup_geometry i (snd (parse_all_gen true conts dvs)) = Some (d_gid d).
-Proof. exact variable_sees_its_container. Qed.
+  nth_error dvs i = Some d ->
+  lookup_geometry i (snd (parse_all_gen true conts dvs))
+  = if good_dvarb conts d then Some (d_gid d) else None.
+Proof. exact variable_geometry_total. Qed.
 Print Assumptions C14_variable_sees_its_container.
 
-(* Reading a dataset with any number of containers and data variables (containers may share
-   their instance, node and part dimensions): every data variable is presented with the cells
-   of the container it names, decoded with that container's own count variables; and in terms
-   of cells: the bounds are the container's cells padded with missing data. *)
+(* Reading a dataset with any number of containers and data variables (containers may share their
+   instance, node and part dimensions; variables may be off the cell dimension): the read never
+   raises; a data variable on the cell dimension of the container it names is presented with that
+   container's cells, decoded with the container's own count variables, any other variable with no
+   geometry.  In terms of cells: the bounds are the container's cells padded with missing data. *)
 Theorem C14_shared_containers :
+  (forall conts dvs,
+     read_dataset conts dvs
+     = Ok (map (fun d => if good_dvarb conts d then own_cells conts d else None) dvs)) /\
   (forall conts dvs, Forall (good_dvar conts) dvs ->
      read_dataset conts dvs = Ok (map (own_cells conts) dvs)) /\
   (forall conts dvs i d c (cs : cells),
@@ -183,7 +191,7 @@ Theorem C14_shared_containers :
      nth_error dvs i = Some d -> nth_error conts (d_gid d) = Some c ->
      c_g c = container_for cs true None -> c_datas c = [enc_nodes cs] -> wf_cells cs ->
      exists l, read_dataset conts dvs = Ok l /\ nth_error l i = Some (Some ([pad3 cs], None))).
-Proof. exact (conj read_dataset_own dataset_variable_cells). Qed.
+Proof. exact (conj read_dataset_total (conj read_dataset_own dataset_variable_cells)). Qed.
 Print Assumptions C14_shared_containers.
 
 (* Writing several fields to one dataset: node, count and ring variables are shared between
